@@ -136,7 +136,23 @@ func (e *Engine) contractFor(pkgPath, key string) *Contract {
 			target = pkgPath + ":" + target
 		}
 		if t := e.contracts[target]; t != nil {
-			return t
+			if len(c.Requires) == 0 && len(c.Ensures) == 0 {
+				return t
+			}
+			// "sameas T" plus clauses of its own (a caller-specific contract F@Caller that adds hand-over
+			// preconditions to F's contract): T's contract with the extra clauses appended, under this key
+			if m := e.mergedContracts[pkgPath+":"+key]; m != nil {
+				return m
+			}
+			m := *t
+			m.Key = c.Key
+			m.Requires = append(append([]*Clause{}, t.Requires...), c.Requires...)
+			m.Ensures = append(append([]*Clause{}, t.Ensures...), c.Ensures...)
+			if e.mergedContracts == nil {
+				e.mergedContracts = map[string]*Contract{}
+			}
+			e.mergedContracts[pkgPath+":"+key] = &m
+			return &m
 		}
 	}
 	return c
@@ -180,6 +196,12 @@ func (e *Engine) verifyFunc(pkg *packages.Package, decl *ast.FuncDecl, profile s
 	}
 	pp, key := funcKey(fn)
 	c := e.contractFor(pp, key)
+	if c != nil && c.Trusted != "" && !c.Extern {
+		if e.trustedUsed == nil {
+			e.trustedUsed = map[string]bool{}
+		}
+		e.trustedUsed[pp+":"+key] = true
+	}
 	fc := &FuncCtx{
 		e: e, pkg: pkg, info: pkg.TypesInfo, decl: decl, fn: fn, sig: fn.Type().(*types.Signature),
 		contract: c, profile: profile, name: shortPkg(pp) + "." + key,
